@@ -48,6 +48,7 @@ deriving DecidableEq, Repr, Inhabited
 /-- the part of `types.ServiceConfig` that selection and pruning look at; `image` is an opaque payload
 that lets the correspondence see whether the right service value was carried over -/
 structure Svc where
+  name : String                    -- `ServiceConfig.Name` (the loader sets it to the map key; `dependentsForService` reads it)
   image : String
   profiles : List String
   deps : AL Dep                    -- depends_on
@@ -56,6 +57,7 @@ structure Svc where
   secrets : List String            -- `secrets[].source`
   build : Option (List String)     -- `build.secrets[].source`; `none` = no build section
   configs : List String            -- `configs[].source`
+  env : AL (Option String) := []   -- `environment`; `none` = `KEY` listed without a value
 deriving DecidableEq, Repr, Inhabited
 
 structure Proj where
@@ -66,6 +68,7 @@ structure Proj where
   volumes : AL String
   secrets : AL String
   configs : AL String
+  environment : AL String := []    -- `Project.Environment` (what unset service variables are resolved against)
 deriving DecidableEq, Repr, Inhabited
 
 /-! ## profiles -/
@@ -91,9 +94,22 @@ def enableProfiles (p : Proj) (names : List String) : List String :=
     if has n p.services then acc
     else acc ++ (match lookup n p.disabled with | some s => s.profiles | none => [])) p.profiles
 
-/-- `Project.WithServicesEnabled` (the final `WithServicesEnvironmentResolved` does not touch the modelled fields) -/
+/-- `MappingWithEquals.Resolve(project.Environment.Resolve)` followed by `OverrideBy` onto an empty mapping:
+a variable listed without a value takes the project's value if there is one -/
+def resolveEnv (penv : AL String) (env : AL (Option String)) : AL (Option String) :=
+  env.map fun kv => (kv.1, match kv.2 with | some v => some v | none => lookup kv.1 penv)
+
+def resolveEnvSvc (penv : AL String) (s : Svc) : Svc := { s with env := resolveEnv penv s.env }
+
+/-- `Project.WithServicesEnvironmentResolved(true)` on services without `env_file` (files are C16's subject):
+only the *enabled* services are resolved -/
+def resolveEnabled (p : Proj) : Proj :=
+  { p with services := p.services.map fun kv => (kv.1, resolveEnvSvc p.environment kv.2) }
+
+/-- `Project.WithServicesEnabled`: repartition by the extended profile list, then resolve the environment of the
+enabled services.  With no name the receiver's copy is returned before either step. -/
 def withServicesEnabled (p : Proj) (names : List String) : Proj :=
-  if names.isEmpty then p else withProfiles p (enableProfiles p names)
+  if names.isEmpty then p else resolveEnabled (withProfiles p (enableProfiles p names))
 
 /-! ## disabling -/
 
@@ -115,15 +131,16 @@ def withServicesDisabled (p : Proj) (names : List String) : Proj :=
 inductive Policy | deps | dependents | ignore
 deriving DecidableEq, Repr, Inhabited
 
-/-- `Project.dependentsForService` (service `Name` = map key) -/
-def dependents (svcs : AL Svc) (name : String) : AL Dep :=
-  svcs.filterMap (fun kv => (lookup name kv.2.deps).map (fun d => (kv.1, d)))
+/-- `Project.dependentsForService`: ranges over the services and, for each one that depends on `s.Name`,
+does `dependent[service.Name] = dependency` (keyed by the dependent's `Name`, not by its map key) -/
+def dependents (svcs : AL Svc) (s : Svc) : AL Dep :=
+  insertAll (svcs.filterMap (fun kv => (lookup s.name kv.2.deps).map (fun d => (kv.2.name, d)))) []
 
 /-- the `dependencies` map of one visited service -/
 def nextOf (svcs : AL Svc) (pol : Policy) (name : String) (s : Svc) : AL Dep :=
   match pol with
   | .deps => s.deps
-  | .dependents => dependents svcs name
+  | .dependents => dependents svcs s
   | .ignore => []
 
 inductive Walk where
@@ -178,18 +195,45 @@ deriving DecidableEq, Repr, Inhabited
 
 def pruneDeps (set : List String) (s : Svc) : Svc := { s with deps := s.deps.filter (fun kv => kv.1 ∈ set) }
 
-/-- one round of the `for name, s := range newProject.Services` loop of `WithSelectedServices` -/
-def selectStep (set : List String) (acc : Proj × AL Svc) (kv : String × Svc) : Proj × AL Svc :=
-  if kv.1 ∈ set then (acc.1, insert kv.1 (pruneDeps set kv.2) acc.2)
-  else (disableOne acc.1 kv.1, acc.2)
+/-- `sort.Strings` (as insertion sort; every sort returns the same list, `sortNames_eq_of_perm`) -/
+def insertName (x : String) : List String → List String
+  | [] => [x]
+  | y :: ys => if x ≤ y then x :: y :: ys else y :: insertName x ys
 
-/-- `Project.WithSelectedServices`.  The range is over the service map of the first copy, in list order;
-`newProject` is replaced by a fresh copy on every `WithServicesDisabled`. -/
+def sortNames : List String → List String
+  | [] => []
+  | x :: xs => insertName x (sortNames xs)
+
+/-- one round of the `for name, s := range newProject.Services` loop of `WithSelectedServices`:
+a selected service is pruned and kept, the name of any other is collected -/
+def selectStep (set : List String) (acc : List String × AL Svc) (kv : String × Svc) : List String × AL Svc :=
+  if kv.1 ∈ set then (acc.1, insert kv.1 (pruneDeps set kv.2) acc.2)
+  else (acc.1 ++ [kv.1], acc.2)
+
+/-- `Project.WithSelectedServices` (after the `fix:` commit): the range is over the service map in list order;
+the collected names are sorted and disabled with a single `WithServicesDisabled` call. -/
 def withSelectedServices (p : Proj) (names : List String) (pol : Policy) : Out :=
   if names.isEmpty then .ok p
   else match forEachService p names pol with
     | .ok set =>
-      let r := p.services.foldl (selectStep set) (p, [])
+      let r := p.services.foldl (selectStep set) ([], [])
+      .ok { withServicesDisabled p (sortNames r.1) with services := r.2 }
+    | .noSuchService => .err
+    | .outOfFuel => .fuel
+
+/-! ### the loop as it was before the `fix:` commit (kept for `Neg/C15.lean`) -/
+
+/-- pre-fix: every non-selected service was disabled on the spot, in range order -/
+def selectStepPre (set : List String) (acc : Proj × AL Svc) (kv : String × Svc) : Proj × AL Svc :=
+  if kv.1 ∈ set then (acc.1, insert kv.1 (pruneDeps set kv.2) acc.2)
+  else (disableOne acc.1 kv.1, acc.2)
+
+/-- pre-fix `Project.WithSelectedServices`: `newProject` was replaced by a fresh copy on every `WithServicesDisabled` -/
+def withSelectedServicesPre (p : Proj) (names : List String) (pol : Policy) : Out :=
+  if names.isEmpty then .ok p
+  else match forEachService p names pol with
+    | .ok set =>
+      let r := p.services.foldl (selectStepPre set) (p, [])
       .ok { r.1 with services := r.2 }
     | .noSuchService => .err
     | .outOfFuel => .fuel
@@ -207,7 +251,7 @@ def pickStep (m : AL String) (acc : AL String) (k : String) : AL String :=
 
 def pick (required : List String) (m : AL String) : AL String := required.foldl (pickStep m) []
 
-/-- `Project.WithoutUnnecessaryResources` -/
+/-- `Project.WithoutUnnecessaryResources` (the kept values come from the copy, which equals the receiver as a value) -/
 def withoutUnnecessaryResources (p : Proj) : Proj :=
   { p with
     networks := pick (p.services.flatMap (fun kv => kv.2.nets)) p.networks
